@@ -5,7 +5,11 @@
    now holds what generation k-1 held (data and index alike), generations beyond c and all other paths are untouched, the
    live files are created empty; without purge nothing is renamed. Every std::vector index is inside the vector. */
 #include "vf_h.h"
+#ifdef BIG
+#include "c29fb.c"     /* same code, ostream model replaced by models/ostream_null.c (opaque names) */
+#else
 #include "c29f.c"
+#endif
 #ifndef ROTNUM
 #define ROTNUM 2
 #endif
@@ -16,6 +20,11 @@ static struct S_class_2eFIX8_3a_3aFilePersister the_fp;
 uint32_t cx_ex0[2]; /* bit k: generation k existed before (family 0 / 1) */
 uint32_t cx_rotnum; uint8_t cx_purge;
 static int n_open, open_bad;
+#ifdef BIG    /* runs around the documented maximum: names are opaque, only indexing and the number of renames are observed */
+uint32_t x_rename(uint8_t *from, uint8_t *to) { rn_calls++; return 0; }
+uint32_t x_access(uint8_t *path, uint32_t mode) { return 0; }
+uint32_t x_open(uint8_t *path, uint32_t flags, ...) { n_open++; return (uint32_t)(2 + n_open); }
+#else
 uint32_t x_rename(uint8_t *from, uint8_t *to) { return rec_rename(from, to); }
 uint32_t x_access(uint8_t *path, uint32_t mode)
 {
@@ -30,10 +39,21 @@ uint32_t x_open(uint8_t *path, uint32_t flags, ...)
   else if (flags & 0x200) g_id[f][0] = 0;                            /* O_TRUNC: empty file = content id 0 */
   n_open++; return (uint32_t)(3 + f);
 }
+#endif
 uint64_t x_read(uint32_t fd, uint8_t *buf, uint64_t n) { return 0; }  /* (no purge, files exist: empty index) */
 int main(void)
 {
-  uint32_t cap = vf_max_rotation(); uint32_t rotnum = ROTNUM; uint8_t purge = nondet_bool();
+  uint32_t cap = vf_max_rotation();
+#ifdef BIG
+  cx_rotnum = ROTNUM; cx_purge = 1;
+  vf_fp_ctor(&the_fp, ROTNUM);
+  uint8_t okb = vf_fp_init(&the_fp, (uint8_t*)".", 1, (uint8_t*)"s", 1, 1) & 1;
+  VF_ASSERT(okb && !__vf_exc_pending, "C29: initialise succeeds");
+  VF_ASSERT((uint32_t)rn_calls == 2 * (ROTNUM < cap ? ROTNUM : cap), "C29: at most the documented maximum of generations is kept (one rename per data and index generation)");
+  VF_REACH();
+  return 0;
+#else
+  uint32_t rotnum = ROTNUM; uint8_t purge = nondet_bool();
   cx_rotnum = rotnum; cx_purge = purge;
   rec_base[0] = "./s"; rec_suffix[0] = ""; rec_sfx0[0] = 1;
   rec_base[1] = "./s"; rec_suffix[1] = ".idx"; rec_sfx0[1] = 1;
@@ -54,7 +74,10 @@ int main(void)
   VF_ASSERT(g_ex[0][0] && g_ex[1][0] && n_open == 2, "C29: the live data and index files exist after initialise");
   if (purge || !g_ex0[0][0]) VF_ASSERT(g_id[0][0] == 0 && g_id[1][0] == 0, "C29: purge leaves empty live files");
   else VF_ASSERT(g_id[0][0] == g_id0[0][0] && g_id[1][0] == g_id0[1][0], "C29: without purge the existing store is kept");
+#if ROTNUM > 0
   if (due) VF_REACH();
+#endif
   if (!due) VF_REACH();
   return 0;
+#endif
 }
